@@ -26,6 +26,15 @@ HELD_HISTORIES = [
       [("create", "W/a/b/x")], [("release", "W/a/b")], [("create", "W/a/y")]]),
 ]
 
+# inputs of the two recorded findings D23 / D24 (known_findings.json): run on every check of C01 and C02, reported under their
+# own signatures
+KNOWN_BURSTS = [
+    ("d23-created-then-enclosing-directory-renamed", [("mkdir", "W/a")],
+     [[("mkdir", "W/a/b"), ("rename", "W/a", "W/c")], [("create", "W/c/b/f")]]),
+    ("d24-directory-leaves-and-returns-at-once", [("mkdir", "W/d"), ("mkdir", "W/d/s")],
+     [[("rename", "W/d", "O/d"), ("rename", "O/d", "W/e")], [("create", "W/e/f")], [("create", "W/e/s/g")]]),
+]
+
 FIXED_BURSTS = [
     # two new top-level directories in one read, the first one populated before the reader gets to it
     ([], [[("mkdir", "W/p"), ("mkdir", "W/p/q"), ("create", "W/p/q/f"), ("mkdir", "W/r"), ("create", "W/r/g"), ("mkdir", "W/t")],
@@ -42,6 +51,10 @@ FIXED_BURSTS = [
     # nor its name
     ([("mkdir", "W/p"), ("mkdir", "W/p/d"), ("create", "W/p/d/f")],
      [[("rename", "W/p/d", "O/d"), ("rename", "W/p", "W/q")], [("create", "O/d/x")], [("unlink", "O/d/f")], [("create", "W/q/y")]]),
+    # the same with an unrelated departure just before (its record is dealt with first)
+    ([("mkdir", "W/z"), ("mkdir", "W/e"), ("mkdir", "W/a"), ("mkdir", "W/a/x"), ("mkdir", "W/a/x/dd"), ("create", "W/a/x/dd/f")],
+     [[("rename", "W/z", "O/z"), ("rename", "W/a/x", "O/x"), ("rename", "W/a", "W/b")], [("create", "O/x/dd/g")], [("unlink", "O/x/dd/f")],
+      [("create", "W/b/y")], [("rename", "O/x", "W/e/x2")], [("rename", "W/b", "W/c")], [("create", "W/e/x2/dd/h")]]),
     ([("mkdir", "W/a"), ("mkdir", "W/a/p"), ("mkdir", "W/a/p/d"), ("mkdir", "W/a/p/d/dd"), ("create", "W/a/p/d/dd/f")],
      [[("rename", "W/a/p/d", "O/d"), ("rename", "W/a", "W/b")], [("create", "O/d/dd/x")], [("mkdir", "O/d/n")], [("create", "W/b/p/y")],
       [("rename", "O/d", "W/b/p/back")], [("create", "W/b/p/back/dd/z")]]),
@@ -236,6 +249,26 @@ def run(res, tier, lean, prop="C01", proof_breaks=(), build_log=""):
                            "model": m, "mismatching_histories": len(bad)}, no_input=True, signature=f"{prop.lower()}-model-mismatch")
 
 
+    recorded = []          # violations on the inputs of recorded findings: appended last (other reports look at res.violations)
+    if prop in ("C01", "C02"):
+        for sig, init_k, bursts_k in KNOWN_BURSTS:
+            out = pipe.run_bursts(init_k, bursts_k, recursive=True, gate_reads=True)
+            res.count()
+            res.bump("recorded_finding_inputs_run")
+            v = None
+            if out["thread_errors"]:
+                v = f"a library thread died of an unhandled error: {out['thread_errors']}"
+            elif prop == "C01":
+                v = pipe.replay_judge(out, True)
+            else:
+                for d, depth, seen in out["probes"]:
+                    if not seen:
+                        v = f"a change inside the existing directory {d} was not reported under a recursive watch"
+            if v:
+                recorded.append((f"native observer violates {prop} on a recorded input: {v}",
+                                 {"init": init_k, "bursts": bursts_k, "delivered": out["per_op"], "tree": out["tree"],
+                                  "probes": out["probes"]}, f"{prop.lower()}-{sig}"))
+
     # ---- operations issued back to back, faster than the observer drains them (the reader is held off for the whole
     #      burst): no model for this regime - the real runs are judged by the property's own observables
     burst_runs = []
@@ -260,6 +293,10 @@ def run(res, tier, lean, prop="C01", proof_breaks=(), build_log=""):
         # IN_DELETE_SELF / IN_IGNORED only when the holder lets go - meanwhile the library's tables still know the path
         plan += [("held", k) for k in range(len(HELD_HISTORIES))]
     if prop == "C07":
+        # a populated tree arrives; the k-th listing of one of its directories (by the reader's walk or by the emitter's
+        # walk for the synthetic events) finds the directory just replaced by a regular file
+        plan += [("walkfault", k) for k in ((1, 2, 3, 4, 5, 6, 7, 8) if thorough else (1, 3, 4, 5, 6))]
+    if prop == "C07":
         # the kernel's queue-overflow record (wd = -1) at the end of the k-th read: the reader must skip it and go on
         plan += [("overflow", k) for k in ((1, 2, 3, 4) if thorough else (1, 3))]
     if prop in ("C01", "C02", "C03", "C07"):
@@ -283,6 +320,10 @@ def run(res, tier, lean, prop="C01", proof_breaks=(), build_log=""):
         if what is not None and what[0] == "rmfault":
             init_b = [("mkdir", "W/d"), ("mkdir", "W/d/dd"), ("mkdir", "W/d/dd/d"), ("mkdir", "W/a")]
             bursts = [[("rename", "W/d", "O/x")], [("create", "W/a/b")], [("create", "O/x/dd/a")]]
+        elif what is not None and what[0] == "walkfault":
+            init_b = [("mkdir", "O/n"), ("mkdir", "O/n/a"), ("mkdir", "O/n/b"), ("mkdir", "O/n/b/d"), ("create", "O/n/b/d/a"),
+                      ("create", "O/n/f"), ("mkdir", "W/d")]
+            bursts = [[("rename", "O/n", "W/n")], [("create", "W/d/b")], [("rename", "W/n", "W/dd")], [("create", "W/d/a")]]
         elif what is not None and what[0] == "held":
             init_b, bursts = HELD_HISTORIES[what[1]]
         elif what is not None and what[0] == "overflow":
@@ -301,12 +342,15 @@ def run(res, tier, lean, prop="C01", proof_breaks=(), build_log=""):
         vfile = vback = False
         ovf = None
         held_run = False
+        wfault = None
         if what is not None and what[0] == "rmfault":
             rmf = what[1]
         elif what is not None and what[0] == "overflow":
             ovf = what[1]
         elif what is not None and what[0] == "held":
             held_run = True
+        elif what is not None and what[0] == "walkfault":
+            wfault = what[1]
         elif what is not None:
             vanish = what[1]
             vfile = what[0] == "faultfile"
@@ -318,7 +362,11 @@ def run(res, tier, lean, prop="C01", proof_breaks=(), build_log=""):
             small = False
         gate = (fixedb or r.random() < 0.7) and not small
         out = pipe.run_bursts(init_b, bursts, recursive=recursive, full=full, small_reads=small, vanish_at=vanish, rm_fault_at=rmf,
-                              gate_reads=gate, vanish_file=vfile, vanish_back=vback, overflow_at=ovf)
+                              gate_reads=gate, vanish_file=vfile, vanish_back=vback, overflow_at=ovf, walk_fault_at=wfault)
+        if wfault is not None:
+            out["held"] = True          # no model for this fault: judged by the property's own observables
+            if out["walk_faults"]:
+                res.bump("transient_walk_faults_injected")
         if held_run:
             out["held"] = True
             res.bump("histories_with_a_directory_removed_while_held_open")
@@ -433,3 +481,5 @@ def run(res, tier, lean, prop="C01", proof_breaks=(), build_log=""):
                       "every explored history (drained, split reads, bursts) was judged and none failed",
                       {"theorem_no_longer_checks": list(proof_breaks), "lean_error": build_log[-3000:]}, no_input=True,
                       signature=f"{prop.lower()}-emit-table")
+    for what_, replay_, sig_ in recorded:
+        res.violation(what_, replay_, signature=sig_)
